@@ -17,14 +17,16 @@ import (
 	pnfttypes "github.com/medibloc/panacea-core/v2/x/pnft/types"
 )
 
-func monC20ConcurrentValidation(s *Stream) {
-	name := "mon.c20.concurrent-validation"
+func monC20ConcurrentValidation(s *Stream) { monConcurrentValidation(s, "c20") }
+
+// the same run under C17's name: "never aborts" includes the aborts no recover() catches
+func monConcurrentValidation(s *Stream, prop string) {
+	name := "mon." + prop + ".concurrent-validation"
 	s.Inflight(name)
 	s.Emit(name, guard(func() string {
 		setConfigOnce()
 		good := sdk.AccAddress([]byte("a-20-byte-address-xx")).String()
 		k := newDidKey("conc-validate")
-		did := didtypes.NewDID(k.pub)
 		var wg sync.WaitGroup
 		var mu sync.Mutex
 		bad := ""
@@ -34,6 +36,7 @@ func monC20ConcurrentValidation(s *Stream) {
 				defer wg.Done()
 				for r := 0; r < 300; r++ {
 					fresh := fmt.Sprintf("g%dr%d", g, r)
+					did := didtypes.NewDID([]byte(fresh)) // an identifier no other call has seen
 					vmID := did + "#" + fresh
 					vm := &didtypes.VerificationMethod{Id: vmID, Type: "KeyType" + fresh, Controller: did, PublicKeyBase58: k.b58}
 					d := didtypes.NewDIDDocument(did, didtypes.WithVerificationMethods([]*didtypes.VerificationMethod{vm}),
@@ -55,6 +58,25 @@ func monC20ConcurrentValidation(s *Stream) {
 							lm.GetSignBytes()
 						}
 						m.GetSigners()
+					}
+					// ownership proofs made and checked while other goroutines make and check theirs: a proof verifies for the
+					// document and sequence it was made over, and for nothing else
+					seq := uint64(g*1000 + r)
+					sig, err := didtypes.Sign(&d, seq, k.priv)
+					if err != nil {
+						continue
+					}
+					if _, ok := didtypes.Verify(sig, &d, seq, k.priv.PubKey()); !ok {
+						mu.Lock()
+						bad = "a proof made under concurrency does not verify for its own document and sequence"
+						mu.Unlock()
+						return
+					}
+					if _, ok := didtypes.Verify(sig, &d, seq+1, k.priv.PubKey()); ok {
+						mu.Lock()
+						bad = "a proof verifies for another sequence under concurrency"
+						mu.Unlock()
+						return
 					}
 				}
 			}(g)
